@@ -15,7 +15,7 @@ The following specifiers are available both to formatting and parsing.
 | `%C`  | `20`     | The proleptic Gregorian year divided by 100, zero-padded to 2 digits. [^1] |
 | `%y`  | `01`     | The proleptic Gregorian year modulo 100, zero-padded to 2 digits. [^1]     |
 |       |          |                                                                            |
-| `%q`  | `1`      | Quarter of year (1-4)                                                      |
+| `%q`  | `3`      | Quarter of year (1-4)                                                      |
 | `%m`  | `07`     | Month number (01--12), zero-padded to 2 digits.                            |
 | `%b`  | `Jul`    | Abbreviated month name. Always 3 letters.                                  |
 | `%B`  | `July`   | Full month name. Also accepts corresponding abbreviation in parsing.       |
@@ -29,7 +29,7 @@ The following specifiers are available both to formatting and parsing.
 | `%w`  | `0`      | Sunday = 0, Monday = 1, ..., Saturday = 6.                                 |
 | `%u`  | `7`      | Monday = 1, Tuesday = 2, ..., Sunday = 7. (ISO 8601)                       |
 |       |          |                                                                            |
-| `%U`  | `28`     | Week number starting with Sunday (00--53), zero-padded to 2 digits. [^2]   |
+| `%U`  | `27`     | Week number starting with Sunday (00--53), zero-padded to 2 digits. [^2]   |
 | `%W`  | `27`     | Same as `%U`, but week 1 starts with the first Monday in that year instead.|
 |       |          |                                                                            |
 | `%G`  | `2001`   | Same as `%Y` but uses the year number in ISO 8601 week date. [^3]          |
@@ -54,7 +54,7 @@ The following specifiers are available both to formatting and parsing.
 |       |          |                                                                            |
 | `%M`  | `34`     | Minute number (00--59), zero-padded to 2 digits.                           |
 | `%S`  | `60`     | Second number (00--60), zero-padded to 2 digits. [^4]                      |
-| `%f`  | `26490000`    | Number of nanoseconds since last whole second. [^7]                   |
+| `%f`  | `026490000`   | Number of nanoseconds since last whole second. [^7]                   |
 | `%.f` | `.026490`| Decimal fraction of a second. Consumes the leading dot. [^7]               |
 | `%.3f`| `.026`        | Decimal fraction of a second with a fixed length of 3.                |
 | `%.6f`| `.026490`     | Decimal fraction of a second with a fixed length of 6.                |
@@ -140,7 +140,7 @@ Notes:
    `%f` and `%.f` are notably different formatting specifiers.<br>
    `%f` counts the number of nanoseconds since the last whole second, while `%.f` is a fraction of a
    second.<br>
-   Example: 7μs is formatted as `7000` with `%f`, and formatted as `.000007` with `%.f`.
+   Example: 7μs is formatted as `000007000` with `%f`, and formatted as `.000007` with `%.f`.
 
 [^8]: `%Z`:
    Since `chrono` is not aware of timezones beyond their offsets, this specifier
